@@ -1,4 +1,5 @@
 import GdslModel.Lemmas.Pfs
+import GdslModel.Lemmas.Extra
 /-!
 # C06 — priority-first search expands nodes in priority order
 -/
@@ -80,5 +81,32 @@ def nodeCmp (a b : K × Int) : Ordering := compare a.2 b.2
 theorem NodeOrd.eq_key (a b : K × Int) : nodeEq a b = true ↔ a.1 = b.1 := by simp [nodeEq]
 theorem NodeOrd.cmp_value (a b : K × Int) : (nodeCmp a b = .lt ↔ a.2 < b.2) ∧ (nodeCmp a b = .eq ↔ a.2 = b.2) :=
   NodeOrd.cmp_value' a b
+
+/-- priority-first search (`min()` and `max()`) on a graph built by a history never runs out of fuel
+    when given `number of distinct keys + 1`: plain, transposed and undirected, any filter, target and mode -/
+theorem Pfs.history_fuel (ops : List (Op K E)) (acc : K → K → E → Bool) (nval : K → Int) (kind : Kind)
+    (hk : kind = .pfsMin ∨ kind = .pfsMax) (root : K)
+    (target : Option K) (cycle : Bool) (hr : root ∈ opKeys ops) :
+    (runLoop (outAdj (Di.run ops)) acc nval kind root target cycle ((opKeys ops).eraseDups.length + 1)).isSome = true ∧
+    (runLoop (inAdj (Di.run ops)) acc nval kind root target cycle ((opKeys ops).eraseDups.length + 1)).isSome = true ∧
+    (runLoop (unAdj (Un.run ops)) acc nval kind root target cycle ((opKeys ops).eraseDups.length + 1)).isSome = true := by
+  have hc := history_closed_eraseDups ops acc
+  have hr' := (mem_eraseDups_opKeys ops root).mpr hr
+  exact ⟨Pfs.fuel_enough _ acc nval kind hk root target cycle _ _ hc.1 hr' (Nat.lt_succ_self _),
+    Pfs.fuel_enough _ acc nval kind hk root target cycle _ _ hc.2.1 hr' (Nat.lt_succ_self _),
+    Pfs.fuel_enough _ acc nval kind hk root target cycle _ _ hc.2.2 hr' (Nat.lt_succ_self _)⟩
+
+/-- the form the driver uses: any node table containing the history's keys and the root, any fuel above its length -/
+theorem Pfs.history_fuel_of_nodes (ops : List (Op K E)) (acc : K → K → E → Bool) (nval : K → Int) (kind : Kind)
+    (hk : kind = .pfsMin ∨ kind = .pfsMax) (root : K)
+    (target : Option K) (cycle : Bool) (nodes : List K) (fuel : Nat)
+    (hks : ∀ k ∈ opKeys ops, k ∈ nodes) (hr : root ∈ nodes) (hf : nodes.length < fuel) :
+    (runLoop (outAdj (Di.run ops)) acc nval kind root target cycle fuel).isSome = true ∧
+    (runLoop (inAdj (Di.run ops)) acc nval kind root target cycle fuel).isSome = true ∧
+    (runLoop (unAdj (Un.run ops)) acc nval kind root target cycle fuel).isSome = true := by
+  have hc := history_closed ops acc nodes hks
+  exact ⟨Pfs.fuel_enough _ acc nval kind hk root target cycle _ _ hc.1 hr hf,
+    Pfs.fuel_enough _ acc nval kind hk root target cycle _ _ hc.2.1 hr hf,
+    Pfs.fuel_enough _ acc nval kind hk root target cycle _ _ hc.2.2 hr hf⟩
 
 end G
